@@ -713,23 +713,43 @@ def _check_e8m0_mxint_bfloat_scale(ctx, r):
     s = m.funcs.get('bitstore_helpers:bfloat2bitstore')
     if s is None:
         raise AnalysisError('anchor vanished: bfloat2bitstore')
-    fm = [n for n in own_walk(s.node) if isinstance(n, ast.IfExp) and 'big_endian' in ast.unparse(n.test)]
-    fmts = [n for n in fm if isinstance(n.body, ast.Constant)]
-    keeps = [n for n in fm if not isinstance(n.body, ast.Constant)]
-    if len(fmts) != 1 or len(keeps) != 1:
-        raise AnalysisError('bfloat2bitstore form not recognised')
-    if (fmts[0].body.value, fmts[0].orelse.value) != ('>f', '<f'):
-        r.fail(s.key, fmts[0], "bfloat is the top half of a float32: big-endian '>f', little-endian '<f'", loc=s.loc(fmts[0]))
-    else:
-        r.ok(fmts[0])
-    def sl(e):
-        ss = [x for x in ast.walk(e) if isinstance(x, ast.Subscript) and isinstance(x.slice, ast.Slice)]
-        return (fold(ss[0].slice.lower), fold(ss[0].slice.upper)) if ss else None
-    if (sl(keeps[0].body), sl(keeps[0].orelse)) != ((0, 2), (2, 4)):
-        r.fail(s.key, keeps[0], 'bfloat keeps the two most significant bytes: [0:2] of the big-endian, [2:4] of the little-endian float32',
-               loc=s.loc(keeps[0]))
-    else:
-        r.ok(keeps[0], {'instance': 'bfloat byte selection', 'be': [0, 2], 'le': [2, 4]})
+    # which float32 is packed and which two bytes of it are kept, for each byte order (partial evaluation of the encoder)
+    from .peval import PEval, Unsupported, is_const
+    bp = [p for p in s.params() if 'endian' in p]
+    if len(bp) != 1:
+        raise AnalysisError('bfloat2bitstore: byte-order parameter not recognised')
+
+    def kept(v):
+        """(format, lo, hi) if the value is BitStore.frombytes(struct.pack(format, ..)[lo:hi]); 'either' values must agree."""
+        if isinstance(v, tuple) and v and v[0] == 'either':
+            a, b = kept(v[1]), kept(v[2])
+            return a if a == b else None
+        if isinstance(v, tuple) and v and v[0] == 'call' and v[1].endswith('frombytes') and v[2]:
+            inner = v[2][0]
+            if isinstance(inner, tuple) and inner and inner[0] == 'slice':
+                base, lo, hi = inner[1], inner[2], inner[3]
+                if isinstance(base, tuple) and base and base[0] == 'either':
+                    fa, fb = [x[2][0] if isinstance(x, tuple) and x and x[0] == 'call' and x[1] == 'struct.pack' and x[2] else None for x in base[1:3]]
+                    base_fmt = fa if fa == fb else None
+                elif isinstance(base, tuple) and base and base[0] == 'call' and base[1] == 'struct.pack' and base[2]:
+                    base_fmt = base[2][0]
+                else:
+                    base_fmt = None
+                return (base_fmt, lo, hi)
+        return None
+    for be, want in ((True, ('>f', 0, 2)), (False, ('<f', 2, 4))):
+        try:
+            pe = PEval(m, s, {bp[0]: be}).run()
+        except Unsupported as e:
+            raise AnalysisError(f'bfloat2bitstore: {e}')
+        got = {kept(v) for v in pe.returns}
+        if None in got or not got:
+            raise AnalysisError('bfloat2bitstore form not recognised')
+        if got != {want}:
+            r.fail(s.key, f'big_endian={be}: {sorted(got)}', f"bfloat is the most significant half of a float32: big_endian={be} must pack '{want[0]}' and keep bytes "
+                   f'[{want[1]}:{want[2]}]', loc=s.loc())
+        else:
+            r.ok(f'bfloat encoder big_endian={be}', {'instance': 'bfloat byte selection', 'big_endian': be, 'format': want[0], 'bytes': [want[1], want[2]]})
     for gk, want_left_self, dec in (('bits:Bits._getbfloatbe', True, '_getfloatbe'), ('bits:Bits._getbfloatle', False, '_getfloatle')):
         g = m.funcs.get(gk)
         if g is None:
